@@ -245,10 +245,38 @@ def run_one(seed, tape, opts):
     # faults: cut contending links
     cut_budget = [tape.choose(3, "cuts")]
 
+    # ... and slow readers: an end stops draining for a while (reads then
+    # coalesce: e.g. the relay's "ok" and the peer's handshake in one chunk)
+    stall_budget = [tape.choose(4, "stalls")]
+    stalled_until = {}
+
+    def stall(e):
+        # bounded in simulated time (well under any protocol timeout), so
+        # that an otherwise idle simulation wakes the reader up again
+        stall_budget[0] -= 1
+        e.stalled = True
+        stalled_until[e] = True
+        sim.note("fault.stall")
+
+        def wake():
+            e.stalled = False
+            stalled_until.pop(e, None)
+        sim.reactor.callLater(tape.pick((0.01, 0.3, 1.5), "stall_len"), wake)
+
+    def unstall_due():
+        pass
+
     def fault_events():
-        if cut_budget[0] <= 0:
-            return []
         evs = []
+        if stall_budget[0] > 0:
+            for link in net.links:
+                for e in link.ends:
+                    if link.up and e.alive and e.made and not e.stalled and \
+                            isinstance(unwrap(e.protocol), transit.Connection):
+                        evs.append(("stall:%d%s" % (link.serial, e.role),
+                                    lambda e=e: stall(e), 2))
+        if cut_budget[0] <= 0:
+            return evs
         for link in net.links:
             if link.up and any(e.alive and e.made for e in link.ends):
                 evs.append(("cut:%d" % link.serial,
@@ -276,6 +304,7 @@ def run_one(seed, tape, opts):
         return any(not l.up for l in net.links)
 
     def oracle():
+        unstall_due()
         if viol:
             return
         for p in (S, R):
@@ -295,6 +324,10 @@ def run_one(seed, tape, opts):
     sim.run(6000, until=both_done, max_time=400)
     sim.chaos = False
     cut_budget[0] = 0
+    stall_budget[0] = 0
+    for e in list(stalled_until):
+        e.stalled = False
+    stalled_until.clear()
     r = sim.run(4000, until=both_done, max_time=400)
     deadline_hit = False
     # (g) deadline
